@@ -968,6 +968,7 @@ SET_OF_decode_uper(const asn_codec_ctx_t *opt_codec_ctx,
 
 		for(i = 0; i < nelems; i++) {
 			void *ptr = 0;
+			size_t moved = pd->moved;	/* Bits taken so far */
 			ASN_DEBUG("SET OF %s decoding", elm->type->name);
 			rv = elm->type->op->uper_decoder(opt_codec_ctx, elm->type,
 				elm->encoding_constraints.per_constraints, &ptr, pd);
@@ -975,7 +976,7 @@ SET_OF_decode_uper(const asn_codec_ctx_t *opt_codec_ctx,
 				td->name, elm->type->name, rv.code, ptr);
 			if(rv.code == RC_OK) {
 				if(ASN_SET_ADD(list, ptr) == 0) {
-                    if(rv.consumed == 0 && nelems > 200) {
+                    if(pd->moved == moved && nelems > 200) {
                         /* Protect from SET OF NULL compression bombs. */
                         ASN__DECODE_FAILED;
                     }
